@@ -33,6 +33,7 @@ func Binds() map[string]reflect.Value {
 		"ApplySlice": reflect.ValueOf(t.ApplySlice),
 		"ParApply":   reflect.ValueOf(t.ParApply),
 		"Par":        reflect.ValueOf(t.Par),
+		"Stress2":    reflect.ValueOf(t.Stress2),
 		"SumN":       reflect.ValueOf(t.SumN),
 		"Wsum":       reflect.ValueOf(t.Wsum),
 		"DivMod":     reflect.ValueOf(t.DivMod),
@@ -132,6 +133,27 @@ func (T) Par(n, k int, f func(int) int) [][]int {
 		}
 	})
 	return outs
+}
+
+// Stress2: n goroutines call the SAME function value reps times each, every goroutine with its own
+// arguments; returns how many calls came back with results that belong to another call.
+// (f must compute (2a+b, b).)
+func (T) Stress2(n, reps int, f func(int, int) (int, int)) int {
+	var mu sync.Mutex
+	bad := 0
+	c11hGo(n, func(g int) {
+		mine := 0
+		for c := 0; c < reps; c++ {
+			a, b := 100*g+c%7, g
+			if x, y := f(a, b); x != 2*a+b || y != b {
+				mine++
+			}
+		}
+		mu.Lock()
+		bad += mine
+		mu.Unlock()
+	})
+	return bad
 }
 
 // SumN returns the sum and the number of its arguments, then overwrites xs[0].
